@@ -40,7 +40,7 @@ COMPANIONS = {'yui_matrix::dense::snf::SnfCalc': ['p', 'pinv', 'q', 'qinv'],
 
 
 def sk(t):
-    return re.sub(r'#\d+\.\d+', '', show(t))
+    return re.sub(r'#(?:i\d+:)?\d+\.\d+', '', show(t))
 
 
 def recv_name(body, t):
